@@ -46,7 +46,10 @@ impl Worker {
     pub fn spawn() -> std::io::Result<Worker> {
         let exe = std::env::current_exe()?;
         let n = WORKER_SEQ.fetch_add(1, std::sync::atomic::Ordering::SeqCst);
-        let base = std::env::temp_dir().join(format!("bgv-worker-{}-{}", std::process::id(), n));
+        // under the run's own scratch area (removed when the run ends), not under /tmp
+        let wdir = std::path::Path::new(crate::engine::VERIF).join("work").join(format!("workers-{}", std::process::id()));
+        let _ = std::fs::create_dir_all(&wdir);
+        let base = wdir.join(format!("w{n}"));
         let err_path = base.with_extension("err");
         let out_path = base.with_extension("out");
         let errf = std::fs::OpenOptions::new().create(true).append(true).open(&err_path)?;
